@@ -449,20 +449,17 @@ impl<'a> FmtVisitor<'a> {
         sig: &ast::FnSig,
         vis: &ast::Visibility,
         generics: &ast::Generics,
+        defaultness: ast::Defaultness,
         span: Span,
     ) -> RewriteResult {
         // Drop semicolon or it will be interpreted as comment.
         let span = mk_sp(span.lo(), span.hi() - BytePos(1));
         let context = self.get_context();
 
-        let (mut result, ends_with_comment, _) = rewrite_fn_base(
-            &context,
-            indent,
-            ident,
-            &FnSig::from_method_sig(sig, generics, vis),
-            span,
-            FnBraceStyle::None,
-        )?;
+        let mut fn_sig = FnSig::from_method_sig(sig, generics, vis);
+        fn_sig.defaultness = defaultness;
+        let (mut result, ends_with_comment, _) =
+            rewrite_fn_base(&context, indent, ident, &fn_sig, span, FnBraceStyle::None)?;
 
         // If `result` ends with a comment, then remember to add a newline
         if ends_with_comment {
@@ -1730,9 +1727,11 @@ pub(crate) fn rewrite_type_alias<'a>(
         (Item | AssocTraitItem | ForeignItem, Some(op_bounds)) => {
             let op = OpaqueType { bounds: op_bounds };
             rewrite_ty(rw_info, Some(bounds), Some(&op), rhs_hi, vis)
+                .map(|result| with_defaultness(defaultness, result))
         }
         (Item | AssocTraitItem | ForeignItem, None) => {
             rewrite_ty(rw_info, Some(bounds), ty_opt, rhs_hi, vis)
+                .map(|result| with_defaultness(defaultness, result))
         }
         (AssocImplItem, _) => {
             let result = if let Some(op_bounds) = op_ty {
@@ -1752,6 +1751,13 @@ pub(crate) fn rewrite_type_alias<'a>(
                 _ => Ok(result),
             }
         }
+    }
+}
+
+fn with_defaultness(defaultness: ast::Defaultness, result: String) -> String {
+    match defaultness {
+        ast::Defaultness::Default(..) => format!("default {result}"),
+        _ => result,
     }
 }
 
